@@ -28,7 +28,7 @@ import importlib
 import vlib
 
 MODULES = ["c11x_cigar", "c11x_polya", "c11x_tables", "c11x_regions", "c11x_lists", "c11x_bedcorr", "c11x_graph",
-           "c11x_resolver", "c11x_assign", "c11x_assignm", "c11x_strand"]
+           "c11x_resolver", "c11x_assign", "c11x_assignm", "c11x_strand", "c11x_mononovel"]
 
 
 class Rel:
